@@ -43,6 +43,10 @@ type decisionCtx struct {
 type fnInfo struct {
 	idx map[ssa.Value]int
 	n   int
+	// loads that feed only the Return of their block are evaluated at the Return (after the calls
+	// of the return statement), which is the order the gc compiler uses for "return *p, f()".
+	deferred map[ssa.Instruction]bool
+	retLoads map[*ssa.Return][]ssa.Instruction
 }
 
 type Frame struct {
@@ -450,6 +454,52 @@ func (in *Interp) info(fn *ssa.Function) *fnInfo {
 		for _, ins := range b.Instrs {
 			if v, ok := ins.(ssa.Value); ok {
 				add(v)
+			}
+		}
+	}
+	fi.deferred = map[ssa.Instruction]bool{}
+	fi.retLoads = map[*ssa.Return][]ssa.Instruction{}
+	for _, b := range fn.Blocks {
+		if len(b.Instrs) == 0 {
+			continue
+		}
+		ret, ok := b.Instrs[len(b.Instrs)-1].(*ssa.Return)
+		if !ok || len(ret.Results) < 2 {
+			continue
+		}
+		hasCall := false
+		for _, ins := range b.Instrs {
+			if _, ok := ins.(*ssa.Call); ok {
+				hasCall = true
+			}
+		}
+		if !hasCall {
+			continue
+		}
+		// iterate backwards: a load is deferred if every referrer is the Return or a deferred load of this block
+		for i := len(b.Instrs) - 2; i >= 0; i-- {
+			u, ok := b.Instrs[i].(*ssa.UnOp)
+			if !ok || u.Op != token.MUL {
+				continue
+			}
+			refs := u.Referrers()
+			if refs == nil || len(*refs) == 0 {
+				continue
+			}
+			all := true
+			for _, r := range *refs {
+				if r == ssa.Instruction(ret) || fi.deferred[r] {
+					continue
+				}
+				all = false
+			}
+			if all {
+				fi.deferred[u] = true
+			}
+		}
+		for _, ins := range b.Instrs {
+			if fi.deferred[ins] {
+				fi.retLoads[ret] = append(fi.retLoads[ret], ins)
 			}
 		}
 	}
@@ -943,6 +993,9 @@ func (in *Interp) runBlocks(fr *Frame) Value {
 					next = b.Succs[1]
 				}
 			case *ssa.Return:
+				for _, d := range fr.info.retLoads[x] {
+					in.exec(fr, d)
+				}
 				switch len(x.Results) {
 				case 0:
 					return nil
@@ -963,6 +1016,9 @@ func (in *Interp) runBlocks(fr *Frame) Value {
 					panic(fr.panic)
 				}
 			default:
+				if len(fr.info.deferred) > 0 && fr.info.deferred[ins] {
+					continue
+				}
 				in.exec(fr, ins)
 			}
 		}
